@@ -346,6 +346,91 @@ def stepFs (s : St) (line : String) : Option (St × String) :=
     | none => none
   | _ => none
 
+/-! independent encoder ops (C11): the file is described by a spec of `key=value` tokens -/
+def splitNat (s : String) : List Nat := if s == "-" || s == "" then [] else (s.splitOn ",").filterMap (·.toNat?)
+def splitHexes (s : String) : Option (List Bytes) := if s == "" then some [] else (s.splitOn ",").mapM unhex
+
+def parseEBlock (s : String) : Option EBlock :=
+  match s.splitOn "|" with
+  | [] => none
+  | rs :: items =>
+    if !rs.startsWith "rs:" then none else
+    let restarts := splitNat (rs.drop 3).toString
+    let its := items.mapM fun it =>
+      match it.splitOn "," with
+      | [sh, k, v] => match sh.toNat?, unhex k, unhex v with
+        | some sh, some k, some v => some ({ shared := sh, e := { key := k, val := v } } : EEntry)
+        | _, _, _ => none
+      | _ => none
+    its.map fun l => { items := l, restarts }
+
+def parseEFile (args : List String) : Option EFile :=
+  let blocksStr := (kv args "blocks").getD ""
+  let blocks? := if blocksStr == "" then some [] else (blocksStr.splitOn ";").mapM parseEBlock
+  match blocks?, splitHexes ((kv args "seps").getD ""), unhex ((kv args "pre").getD "-") with
+  | some blocks, some seps, some pre =>
+    some { version := if kvNat args "ver" 2 == 1 then .v1 else .v2, pre, blocks, seps,
+           indexShared := splitNat ((kv args "idxsh").getD "-"), indexRestarts := splitNat ((kv args "idxrs").getD "0"),
+           compression := kvNat args "comp" 0, blockSizeField := kvNat args "bsf" 8192, thr := kvNat args "thr" 4294967295 }
+  | _, _, _ => none
+
+def stepEnc (s : St) (line : String) : Option (St × String) :=
+  match line.trimAscii.toString.splitOn " " with
+  | "enc.raw" :: args =>
+    (parseEFile args).map fun f => (s, "raws " ++ " ".intercalate (f.blocks.map fun b => hex (b.encode f.thr)))
+  | "enc.legal" :: args =>
+    (parseEFile args).map fun f =>
+      let comp := fun raw => ((compOf s.ctab f.compression raw).getD raw)
+      (s, if f.legal comp then "legal" else "illegal")
+  | "enc.file" :: id :: args =>
+    match id.toNat?, parseEFile args with
+    | some i, some f =>
+      let ctab := s.ctab
+      let missing := f.compression != 0 && f.blocks.any fun b => (compOf ctab f.compression (b.encode f.thr)).isNone
+      if missing then some (s, "no-ctab") else
+      let comp := fun raw => ((compOf ctab f.compression raw).getD raw)
+      let bytes := f.encode comp
+      some ({ s with blobs := s.blobs.insert i bytes }, "file " ++ hex bytes)
+    | _, _ => none
+  | _ => none
+
+/-! write(2) outcome scripts (C20) -/
+def parseWOut (t : String) : Option WOut :=
+  if t == "f" then some .full else if t == "e" then some .eintr else if t == "z" then some .zero
+  else if t == "x" then some .error
+  else if t.startsWith "p" then (t.drop 1).toString.toNat?.map WOut.short else none
+
+/-- the buffers the writer passes to _write_all, recovered from the bytes of a finished file (compression none):
+    three per frame (length varint, checksum, stored bytes) for every data block and the index, then the trailer -/
+partial def fileBuffers (file : Bytes) : List Bytes :=
+  if file.length < 512 then [file] else
+  let body := file.take (file.length - 512)
+  let rec go (d : Bytes) (acc : List Bytes) : List Bytes :=
+    if d.isEmpty then acc else
+    let r := vdecode64 d
+    if r.2 == 0 then acc ++ [d] else
+    let payload := (d.drop (r.2 + 4)).take r.1
+    go (d.drop (r.2 + 4 + r.1)) (acc ++ [d.take r.2, (d.drop r.2).take 4, payload])
+  go body [] ++ [file.drop (file.length - 512)]
+
+def stepWa (s : St) (line : String) : Option (St × String) :=
+  match line.trimAscii.toString.splitOn " " with
+  | "wa.file" :: args =>
+    let kvs := args.filter (·.contains '=')
+    match parsePairs (args.filter fun a => !a.contains '=') with
+    | none => none
+    | some es =>
+      let cfg : WCfg := { compression := 0, blockSize := kvNat kvs "bs" 64, interval := kvNat kvs "ri" 2, minBlockSize := kvNat kvs "minbs" 16 }
+      let bytes := Writer.run cfg 0 es
+      let sc := (kv kvs "script").getD "-"
+      match (if sc == "-" then some [] else (sc.splitOn ",").mapM parseWOut) with
+      | none => none
+      | some script =>
+        let r := writeMany (fileBuffers bytes) script {}
+        let calls := ",".intercalate (r.calls.map fun c => toString c.2)
+        some (s, (if r.ok then "ok" else "abort") ++ " file=" ++ hex r.accepted ++ " calls=" ++ calls)
+  | _ => none
+
 def stepMore (s : St) (line : String) : St × String :=
   match line.trimAscii.toString.splitOn " " with
   | "r.it" :: rid :: iid :: kargs =>
@@ -414,7 +499,11 @@ def stepMore (s : St) (line : String) : St × String :=
         | some r => r
         | none => match stepFs s line with
           | some r => r
-          | none => (s, "bad-op")
+          | none => match stepEnc s line with
+            | some r => r
+            | none => match stepWa s line with
+              | some r => r
+              | none => (s, "bad-op")
 
 def step (s : St) (line : String) : St × String :=
   match line.trimAscii.toString.splitOn " " with
